@@ -266,6 +266,10 @@ pub struct Case {
     pub format: u8,
     pub ddl: bool,
     pub target_partitions: u8,
+    /// the case's palette: every domain index (file values and filter literals) is mapped onto these few
+    /// entries, so literals meet file values often (empty = identity)
+    #[serde(default)]
+    pub palette: Vec<u16>,
 }
 
 const GLOBS: &[&str] = &["*", "*{EXT}", "f*", "part-*{EXT}", "?*{EXT}", "[fx]*", "*[0-4]{EXT}"];
@@ -345,10 +349,13 @@ impl Case {
             _ => None,
         }
     }
+    fn dom(&self, idx: u16) -> u16 {
+        if self.palette.is_empty() { idx } else { self.palette[pick_index(idx, self.palette.len())] }
+    }
     fn pval(&self, f: &FileSpec, c: usize) -> (V, u8) {
         let (idx, spell) = if f.pvals.is_empty() { (0u16, 0u8) } else { f.pvals[c % f.pvals.len()] };
         let ty = self.pcols[c];
-        let v = domain_value(ty, idx);
+        let v = domain_value(ty, self.dom(idx));
         let spell = spell.min(5);
         // zero padding only spells integers; dates have one spelling besides encodings
         let spell = if spell == 5 && ty != PTy::Int { 3 } else { spell };
@@ -451,7 +458,7 @@ impl Case {
         }
     }
     fn lit(&self, c: &ColRef, idx: u16) -> V {
-        domain_value(self.col_ty(c).unwrap_or(PTy::Int), idx)
+        domain_value(self.col_ty(c).unwrap_or(PTy::Int), self.dom(idx))
     }
     fn pred_sql(&self, p: &Pred) -> String {
         let single = self.single().is_some();
@@ -1004,9 +1011,9 @@ impl Property for C27 {
             any::<bool>(),
             prop_oneof![3 => Just(0u8), 1 => Just(1u8), 2 => Just(2u8)],
             prop::bool::weighted(0.3),
-            1u8..5,
+            (1u8..5, prop_oneof![1 => Just(vec![]), 4 => prop::collection::vec(any::<u16>(), 2..6)]),
         )
-            .prop_map(|(pcols, files, pred, query, location, ignore_subdirectory, list_cache, format, ddl, target_partitions)| Case {
+            .prop_map(|(pcols, files, pred, query, location, ignore_subdirectory, list_cache, format, ddl, (target_partitions, palette))| Case {
                 pcols,
                 files,
                 pred,
@@ -1017,11 +1024,12 @@ impl Property for C27 {
                 format,
                 ddl,
                 target_partitions,
+                palette,
             })
             .boxed()
     }
     fn budget(&self, tier: Tier) -> Budget {
-        Budget::new(tier.pick(640, 15_000), tier.pick(8, 16)).min_nontrivial(tier.pick(150, 4_000)).case_timeout(180)
+        Budget::new(tier.pick(480, 15_000), tier.pick(8, 16)).min_nontrivial(tier.pick(120, 4_000)).case_timeout(180)
     }
     fn rule(&self) -> String {
         "1-3 typed partition columns, 1-12 harness-written files in a hive layout with 6 directory spellings per value, layout noise, dir/glob/single-file location, \
